@@ -27,7 +27,7 @@ func Run(m *mon.M) {
 	m.Require("polygon.first_vertex_at_face_boundary", 50)
 	m.Require("polygon.levels_seen", 20)
 	m.Require("polygon.vertex_on_face_boundary", 100)
-	m.Require("relations.compared", 20000)
+	m.Require("relations.compared", 10000)
 	m.Require("reader.short_reads", 20000)
 	m.Stream("polygon", m.N(40000, 1500000), polygon)
 	m.Stream("simple", m.N(60000, 3000000), simple)
@@ -437,7 +437,7 @@ func polygon(c *mon.Case) {
 	if !bytes.Equal(b2.Bytes(), enc) {
 		c.Violation(tag+"/re-encode-differs/wrong-answer", "Encode(Decode(Encode(x))) != Encode(x)", det(hexb(b2.Bytes())))
 	}
-	if p.NumLoops() > 0 && c.I%2 == 0 {
+	if p.NumLoops() > 0 && c.I%8 == 0 {
 		sameRelations(c, tag, p, &q, centers, math.Max(p.CapBound().Radius().Radians(), 1e-9), det)
 	}
 }
@@ -487,7 +487,7 @@ func loop(c *mon.Case) {
 	if !bytes.Equal(b2.Bytes(), enc) {
 		c.Violation("Loop/re-encode-differs/wrong-answer", "Encode(Decode(Encode(x))) != Encode(x)", det)
 	}
-	if c.I%2 == 0 && len(vs) >= 3 {
+	if c.I%4 == 0 && len(vs) >= 3 {
 		for _, rad := range []float64{sp.RMax * 0.01, sp.RMax * (0.05 + 0.9*r.Float64()), math.Min(1.5, sp.RMax*(1.2+r.Float64()))} {
 			if rad < 1e-12 {
 				continue
